@@ -13,7 +13,7 @@ var initAllow = map[string]bool{
 	"github.com/gobwas/ws": true, "github.com/gobwas/ws/wsutil": true, "github.com/gobwas/ws/wsflate": true,
 	"github.com/gobwas/httphead": true, "io": true, "errors": true, "bufio": true, "bytes": true,
 	"strings": true, "strconv": true, "unicode/utf8": true, "encoding/binary": true, "encoding/base64": true,
-	"math/bits": true, "io/ioutil": true, "context": true, "net/http": false, "compress/flate": false,
+	"math/bits": true, "io/ioutil": true, "context": true, "net/http": false, "compress/flate": true, "sort": true, "math": true, "sync": false,
 }
 
 // globals of non-initialised packages that may be read as their zero value / modelled value
